@@ -187,7 +187,7 @@ func checkC16(c *Ctx, r *Report) {
 		// attributes appended only under isAnAttribute, free text only under !isAnAttribute; the free text is the line's own text
 		viol := ""
 		var sites []string
-		ast.Inspect(fi.Decl, func(n ast.Node) bool {
+		w.inspectRegion(fi, func(n ast.Node) bool {
 			is, ok := n.(*ast.IfStmt)
 			if !ok {
 				return true
@@ -478,7 +478,7 @@ func checkAnnotationRegex(c *Ctx, r *Report, clause string) {
 	groupOf := map[string]string{}
 	if fi != nil {
 		info := fi.Pkg.TypesInfo
-		ast.Inspect(fi.Decl, func(n ast.Node) bool {
+		w.inspectRegion(fi, func(n ast.Node) bool {
 			as, ok := n.(*ast.AssignStmt)
 			if !ok || len(as.Rhs) != 1 {
 				return true
